@@ -250,6 +250,10 @@ def run(repo, chk):
                        'expression may still read them (and its temporaries overwrite them)')
                 break
         chk.expect(bad is None and n > 0, 'C08.L2', f'gen_stmts[{arm}]', bad or f'{n} paths', GEN)
+    try:
+        _loop_attr = gf.loop_record().get('attr')
+    except AnalysisError:
+        _loop_attr = None
     for p, ev in gf.inlined('gen_block'):
         arms = [e.text for e in ev if e.kind == 'case' and not e.origin]
         if not arms or 'LoopBlock' not in arms[-1] or p.outcome == 'raise':
@@ -259,6 +263,8 @@ def run(repo, chk):
             if e.kind == 'sub' and e.func == 'self.bool_expr_branch' and idx['cond'] is None:
                 idx['cond'] = i
             elif e.kind == 'call' and e.func in ('.append', '.appendleft') and e.recv is not None and src(e.recv) == 'self.loop_info':
+                idx['info'] = i
+            elif e.kind == 'assign' and _loop_attr is not None and e.target == _loop_attr and idx['info'] is None:
                 idx['info'] = i
             elif e.kind == 'sub' and e.func == 'self.gen_block' and src(e.args[0]) == 'block.body':
                 idx['body'] = i
